@@ -275,6 +275,11 @@ def derived_bad(model):
         state = R.getstate()
         chk("shuffle", A.shuffle())
         R.setstate(state)
+        half = A.select(lambda a: a.unique_id % 2 == 0)
+        chk("union", half | A)
+        chk("intersection", A & half)
+        chk("difference", A - half)
+        chk("symmetric_difference", half ^ A)
         for t, s in model.agents_by_type.items():
             chk(f"by_type[{t.__name__}]", s)
         for k, g in A.groupby(lambda a: a.unique_id % 2):
